@@ -291,6 +291,15 @@ def _load(modname):
 _PROC_HISTORY = []      # seeds executed so far by this worker process, in order
 
 
+def _rm_own_scratch():
+    import shutil
+    shutil.rmtree(os.path.join(os.environ.get("VERIF_SCRATCH", "/dev/shm"), f"finam-verif-{os.getpid()}"), ignore_errors=True)
+
+
+import atexit  # noqa: E402
+atexit.register(_rm_own_scratch)      # (the parent: shrinking and replays run there; workers clean up per chunk)
+
+
 def _worker(modname, tier, seeds, want_samples):
     import faulthandler
     faulthandler.enable()
@@ -326,6 +335,9 @@ def _worker(modname, tier, seeds, want_samples):
             rec["scenario"] = sc
             rec["outcome"] = res.get("outcome", "")
         out.append(rec)
+    # the worker's scratch directory (spill files, written csv files) goes with the chunk; the next chunk recreates it
+    import shutil
+    shutil.rmtree(os.path.join(os.environ.get("VERIF_SCRATCH", "/dev/shm"), f"finam-verif-{os.getpid()}"), ignore_errors=True)
     return out
 
 
